@@ -10,7 +10,7 @@ add, subtract and compare only within one unit.
 """
 import collections, copy, json, os
 from concurrent.futures import ThreadPoolExecutor
-from lib import driver as D
+from lib import driver as D, machine as M
 
 MUTANTS = ["noClamp", "weekIs5Days", "countNotDuration", "dropOffset"]
 CHUNK = 6000          # observations per judge run (TLC keeps one copy of the observations per worker)
@@ -153,6 +153,8 @@ def run(ctx):
     if thorough:
         corrupt_probe(ctx, probe)
 
+    # programs of the whole abstract machine whose last step is one of this property's operations (lib/machine.py)
+    verdicts = M.extend(ctx, verdicts, by_id)
     return D.finish(
         ctx, verdicts, by_id, evaluations=nchan,
         rule="cases enumerated by TLC from the property's quantifier (%s tier: %d cases = %s; of which %d sampled by tlc -simulate); "
